@@ -146,6 +146,7 @@ WRAP:
 			added = true
 			t = time.Date(t.Year(), t.Month(), t.Day(), 0, 0, 0, 0, loc)
 		}
+		prev := t
 		t = t.AddDate(0, 0, 1)
 		// Notice if the hour is no longer midnight due to DST.
 		// Add an hour if it's 23, subtract an hour if it's 1.
@@ -154,6 +155,16 @@ WRAP:
 				t = t.Add(time.Duration(24-t.Hour()) * time.Hour)
 			} else {
 				t = t.Add(time.Duration(-t.Hour()) * time.Hour)
+			}
+		}
+		// A zone can skip a whole calendar day (Pacific/Apia went from
+		// 2011-12-29 straight to 2011-12-31): the date arithmetic above then
+		// lands back on the day it started from and the search would never
+		// end. Walk to the first hour of the next day that does exist.
+		if t.Day() == prev.Day() {
+			t = prev
+			for t.Day() == prev.Day() {
+				t = t.Add(time.Hour)
 			}
 		}
 
